@@ -142,31 +142,37 @@ Definition final_dset (E : list key) (p : prog) : dset :=
 
 (* ---------------------------------------------------------------- what a call leaves in one key *)
 (* effect of one execution path on a key k: untouched, last action a write, last action a deletion *)
-Inductive effect := Untouched | Written | Deleted.
+(* Emptied: the last action bound the key to a fresh EMPTY container (net[k] = dict()): for every reader of a cache
+   key that is the same as an absent key (membership tests fail, the "create if absent" branch writes the same) *)
+Inductive effect := Untouched | Written | Deleted | Emptied.
 
-Record eset := mkE { eU : bool; eW : bool; eD : bool }.      (* set of possible effects *)
+Record eset := mkE { eU : bool; eW : bool; eD : bool; eE : bool }.      (* set of possible effects *)
 
 Definition e_in (e : effect) (x : eset) : bool :=
-  match e with Untouched => eU x | Written => eW x | Deleted => eD x end.
-Definition e_empty := mkE false false false.
+  match e with Untouched => eU x | Written => eW x | Deleted => eD x | Emptied => eE x end.
+Definition e_empty := mkE false false false false.
 Definition e_one (e : effect) : eset :=
-  match e with Untouched => mkE true false false | Written => mkE false true false | Deleted => mkE false false true end.
-Definition e_union (x y : eset) : eset := mkE (eU x || eU y) (eW x || eW y) (eD x || eD y).
+  match e with
+  | Untouched => mkE true false false false | Written => mkE false true false false
+  | Deleted => mkE false false true false | Emptied => mkE false false false true end.
+Definition e_union (x y : eset) : eset := mkE (eU x || eU y) (eW x || eW y) (eD x || eD y) (eE x || eE y).
 (* paths of x followed by paths of y *)
 Definition e_then (x y : eset) : eset :=
-  let nonempty := eU x || eW x || eD x in
-  mkE (eU x && eU y) ((eW x && eU y) || (nonempty && eW y)) ((eD x && eU y) || (nonempty && eD y)).
+  let nonempty := eU x || eW x || eD x || eE x in
+  mkE (eU x && eU y) ((eW x && eU y) || (nonempty && eW y)) ((eD x && eU y) || (nonempty && eD y))
+      ((eE x && eU y) || (nonempty && eE y)).
 Definition then1 (a b : effect) : effect := match b with Untouched => a | _ => b end.
 
 Section Leak.
   Variable k : key.
   Variable des : nat -> bool.        (* the raise sites that count as "the call failed" *)
+  Variable emp : nat -> bool.        (* writers that bind a fresh empty container *)
 
   (* (effects at normal exits, effects at designated raise sites) *)
   Fixpoint eff (p : prog) : eset * eset :=
     match p with
     | Skip | Rd _ _ => (e_one Untouched, e_empty)
-    | Wr _ k' => (if String.eqb k' k then e_one Written else e_one Untouched, e_empty)
+    | Wr f k' => (if String.eqb k' k then e_one (if emp f then Emptied else Written) else e_one Untouched, e_empty)
     | Del _ k' => (if String.eqb k' k then e_one Deleted else e_one Untouched, e_empty)
     | Cp _ d _ => (if String.eqb d k then e_one Written else e_one Untouched, e_empty)
     | Abort f => (e_empty, if des f then e_one Untouched else e_empty)
@@ -235,21 +241,21 @@ Section Sem.
         else Untouched
     end.
 
-  Fixpoint peff (k : key) (p : prog) (s : st) : effect :=
+  Fixpoint peff (emp : nat -> bool) (k : key) (p : prog) (s : st) : effect :=
     match p with
     | Skip | Rd _ _ | Abort _ => Untouched
-    | Wr _ k' => if String.eqb k' k then Written else Untouched
+    | Wr f k' => if String.eqb k' k then (if emp f then Emptied else Written) else Untouched
     | Del _ k' => if String.eqb k' k then Deleted else Untouched
     | Cp _ d _ => if String.eqb d k then Written else Untouched
     | Seq a b => match exec a s with
-                 | Normal s' => then1 (peff k a s) (peff k b s')
-                 | Aborted _ _ => peff k a s
+                 | Normal s' => then1 (peff emp k a s) (peff emp k b s')
+                 | Aborted _ _ => peff emp k a s
                  end
     | Choice a b =>
         let s' := mk (sigma s) (log s) (S (ctr s)) in
-        if fb (log s) (ctr s) then peff k a s' else peff k b s'
-    | Loop a => iter_eff (exec a) (peff k a) N s
-    | IfComp c a => if present c (sigma s CL) then peff k a s else Untouched
+        if fb (log s) (ctr s) then peff emp k a s' else peff emp k b s'
+    | Loop a => iter_eff (exec a) (peff emp k a) N s
+    | IfComp c a => if present c (sigma s CL) then peff emp k a s else Untouched
     end.
 
   (* what a caller can observe of the way a call ended: returned / raised where, and everything read *)
